@@ -6,14 +6,15 @@ CONSTANTS
   MaxResub = 1
   LiveLimit = 3
   Modes = {"per"}
-  Kinds = {"fresh"}
-  Pages = {2}
-  SSizes = {2}
+  Kinds = {"fresh", "rlive", "rstream"}
+  Pages = {1, 2}
+  SSizes = {1, 2}
   Filts = {"none"}
   Ops = {"pub", "rem"}
   Pres = {3}
   N0s = {0}
   Contig = TRUE
+  DropStale = TRUE
 VIEW View
 INVARIANTS TypeOK C22
 PROPERTIES C22R C16M
